@@ -142,6 +142,14 @@ def _parts(ctx, expr, fi, facts, depth=0):
         return out
     if isinstance(expr, ast.IfExp):
         return [('var', u(expr))]
+    if isinstance(expr, ast.Name) and getattr(expr, '_parent', None) is not None:
+        from sa.normalize import reaching_value
+        anchor = expr
+        while getattr(anchor, '_parent', None) is not None and not isinstance(anchor, ast.stmt):
+            anchor = anchor._parent
+        v = reaching_value(anchor, expr.id)
+        if v is not None:
+            return _parts(ctx, v, fi, facts, depth + 1)
     return [('var', u(expr))]
 
 
@@ -271,56 +279,53 @@ def r9_anchored(ctx, modules, rule='R9', floor=1, name_test_only=True):
     return n
 
 
-def r9_escape_when_no_regex(ctx, funcs, rule='R9e'):
-    """In steps with a `regex` switch: the pattern source is `x if regex else re.escape(x)` or
-    `if not regex: x = re.escape(x)`."""
+def r9_escape_when_no_regex(ctx, modules, rule='R9e'):
+    """In modules whose steps have a `regex` switch: every pattern built from a name uses the raw name only on the regex side
+    of a conditional on that switch and re.escape(name) on the other side (expression or statement form, in any function of
+    the module, helpers included)."""
     run = ctx.run
     run.rule(rule, 'REGEX-SWITCH: in a step that has a `regex` option every pattern built from a name uses the raw name '
                    'only when regex is on and re.escape(name) when it is off')
+    from sa.normalize import resolve_here
     n = 0
-    for fi in funcs:
-        # search the factory (outer function) and nested functions
-        nodes = list(ast.walk(fi.node))
-        has_switch = 'regex' in fi.all_params
+    for modname in sorted(modules if not isinstance(modules, list) else [f.module.name for f in modules]):
+        m = ctx.repo.module(modname)
+        has_switch = any('regex' in f.all_params for f in ctx.repo.functions.values() if f.module is m)
         if not has_switch:
             continue
-        for c in nodes:
-            if isinstance(c, ast.Call) and ctx.res.external_name(c) == 're.compile' and c.args:
-                pat = c.args[0]
-                if isinstance(pat, ast.Constant):
-                    continue
-                n += 1
-                ok = False
-                for x in ast.walk(pat):
-                    if isinstance(x, ast.IfExp) and 'regex' in names_in(x.test):
-                        pos, neg = (x.body, x.orelse)
-                        if isinstance(x.test, ast.UnaryOp) and isinstance(x.test.op, ast.Not):
-                            pos, neg = neg, pos
-                        esc = isinstance(neg, ast.Call) and ctx.res.external_name(neg) == 're.escape'
-                        raw = not (isinstance(pos, ast.Call) and ctx.res.external_name(pos) == 're.escape')
-                        same = esc and u(neg.args[0]) == u(pos)
-                        ok = esc and raw and same
-                if not ok:
-                    # statement form: `if not regex: name = re.escape(name)` before the compile, or an enclosing
-                    # `if regex:` with the escape-free alternative in the else branch
-                    f = ctx.repo.enclosing_func(c)
-                    for st in ast.walk(f.node):
-                        if isinstance(st, ast.If) and 'regex' in names_in(st.test):
-                            neg_branch = st.body if (isinstance(st.test, ast.UnaryOp) and
-                                                     isinstance(st.test.op, ast.Not)) else st.orelse
-                            for y in neg_branch:
-                                for z in ast.walk(y):
-                                    if isinstance(z, ast.Call) and ctx.res.external_name(z) == 're.escape':
-                                        ok = True
-                            # compile only in the regex branch, plain equality in the other one (unpivot)
-                            pos_branch = st.orelse if neg_branch is st.body else st.body
-                            if any(c is z for y in pos_branch for z in ast.walk(y)) and \
-                                    not any(isinstance(z, ast.Call) and ctx.res.external_name(z) in
-                                            ('re.compile', 're.match', 're.search') for y in neg_branch for z in ast.walk(y)):
-                                ok = True
-                run.check(ok, rule, where(ctx.repo, c), fq(ctx.repo, c), c,
-                          'with regex disabled the name reaches the pattern without re.escape (or with regex enabled it '
-                          'is escaped)')
+        for c in ast.walk(m.tree):
+            if not (isinstance(c, ast.Call) and ctx.res.external_name(c) == 're.compile' and c.args):
+                continue
+            pat = c.args[0]
+            if isinstance(pat, ast.Constant):
+                continue
+            n += 1
+            rp = resolve_here(pat)
+            ok = False
+            for x in ast.walk(rp):
+                if isinstance(x, ast.IfExp) and isinstance(x.test, ast.Name):
+                    pos, neg = x.body, x.orelse
+                    esc = isinstance(neg, ast.Call) and u(neg.func) == 're.escape'
+                    raw = not (isinstance(pos, ast.Call) and u(pos.func) == 're.escape')
+                    ok = ok or (esc and raw and u(neg.args[0]) == u(pos))
+            if not ok:
+                f = ctx.repo.enclosing_func(c)
+                scope = f.node if f is not None else m.tree
+                for st in ast.walk(scope):
+                    if isinstance(st, ast.If) and isinstance(st.test, (ast.Name, ast.UnaryOp)) and 'regex' in names_in(st.test):
+                        negated = isinstance(st.test, ast.UnaryOp) and isinstance(st.test.op, ast.Not)
+                        neg_branch = st.body if negated else st.orelse
+                        pos_branch = st.orelse if negated else st.body
+                        if any(isinstance(z, ast.Call) and u(z.func) == 're.escape' for y in neg_branch for z in ast.walk(y)):
+                            ok = True
+                        # the pattern is compiled only on the regex side, plain equality on the other (unpivot)
+                        if any(c is z for y in pos_branch for z in ast.walk(y)) and \
+                                not any(isinstance(z, ast.Call) and u(z.func) in ('re.compile', 're.match', 're.search')
+                                        for y in neg_branch for z in ast.walk(y)):
+                            ok = True
+            run.check(ok, rule, where(ctx.repo, c), fq(ctx.repo, c), c,
+                      'with regex disabled the name reaches the pattern without re.escape (or with regex enabled it '
+                      'is escaped)')
     return n
 
 
